@@ -1,7 +1,7 @@
 #!/bin/bash
-# tools/final_pipeline.sh: thorough tier of every check on /repo, then the regression of every seeded change (quick tier).
+# tools/final_pipeline.sh [IDs...]: thorough tier of the named checks (default: all) on /repo, then the regression of every seeded change.
 HERE="$(cd "$(dirname "$0")/.." && pwd)"
 cd "$HERE"
-tools/run_all.sh thorough
+tools/run_all.sh thorough "$@"
 echo "=== SEED REGRESSION ==="
 tools/run_seeds.sh
